@@ -13,7 +13,7 @@ from ..findings import predicate
 
 MOD = "btmc.props.c05"
 
-CAP = 1.0e6  # enough cash in the parent for every request of the grid
+CAP = 1.0e7  # enough cash in the parent for every request of the grid
 
 
 def _tree(p, m, spread, fee, integer, p_prev=None):
@@ -83,6 +83,15 @@ def judge(obs, pos, amount, p, m, spread, feename, integer):
     if not ref.fee_in_domain(p, m, spread, fee):
         return None  # outside the property's domain (not counted)
     value = pos * p * m
+    dust = pos != 0.0 and amount != -value and abs(amount + value) <= 1e-12 * abs(value)
+    if dust and "raised" not in obs and obs["pos1"] == 0.0:
+        # the amount equals minus the value up to float dust: closing completely is one of the
+        # two admissible readings (the other, meeting the budget, is judged below)
+        q = -pos
+        exp_spent = ref.trade_cost(q, p, m, spread, fee)
+        if abs(obs["spent"] - exp_spent) > 1e-9 * max(1.0, abs(exp_spent)):
+            return ("booked_cost", {"q": q, "spent": exp_spent})
+        return None
     if amount == -value and pos != 0.0:
         if "raised" in obs or obs["pos1"] != 0.0:
             return ("closing_amount_closes", {"position_after": 0.0})
@@ -204,7 +213,7 @@ def grid(tier, seed):
         prices = [1.0, 2.5, 10.0, 100.0] if seed % 2 == 0 else [2.0, 2.5, 10.0, 101.37]
         mults = [1.0, 2.0]
         poss = [0.0, 3.0, -3.0, 10.0, -10.0]
-        amounts = [x * 0.5 for x in range(-80, 81)]
+        amounts = [x * 0.5 for x in range(-80, 81)] + [1000000.0, -1000000.0, 65536.25, -123456.5]
         spreads = [None, 0.5]
         fees = [None, "flat", "prop", "pershare", "maxflat"]
         modes = [True, False]
@@ -212,7 +221,7 @@ def grid(tier, seed):
         prices = [1.0, 2.0, 2.5, 10.0, 100.0, 3.3, 0.7, 101.37]
         mults = [1.0, 2.0, 10.0]
         poss = [0.0, 3.0, -3.0, 10.0, -10.0, 3.5, -3.5, 1.0, -1.0, 25.0]
-        amounts = [x * 0.25 for x in range(-320, 321)] + [1000.0, -1000.0, 12345.67, -999.99]
+        amounts = [x * 0.25 for x in range(-320, 321)] + [1000.0, -1000.0, 12345.67, -999.99, 1000000.0, -1000000.0, 65536.25, -123456.5]
         spreads = [None, 0.0, 0.5, 0.25]
         fees = [None, "flat", "prop", "pershare", "maxflat", "propdec", "mixdec"]
         modes = [True, False]
